@@ -53,7 +53,7 @@ func worldBarrage(w *World) {
 		"auth":              map[string]any{"token": token},
 		"transport":         map[string]any{"tcpMux": tcpMux, "heartbeatTimeout": -1, "maxPoolCount": w.KnobPick("max_pool", 1, 5, 100)},
 		"allowPorts":        []map[string]any{{"start": 20000, "end": 20019}},
-		"maxPortsPerClient": w.KnobPick("quota", 0, 0, 5),
+		"maxPortsPerClient": w.KnobPick("quota", 0, 0, 1, 2, 5),
 		"userConnTimeout":   2,
 	}
 	env := w.newLcEnv(scfg, token, PeerOpts{Server: "10.0.0.1:7000", Mux: tcpMux, Token: token})
